@@ -55,6 +55,28 @@ using rgb16_planar_odd_img = gil::image<gil::rgb16_pixel_t, true, MisAlloc<unsig
 using bits565_odd_img = gil::bit_aligned_image3_type<5, 6, 5, gil::bgr_layout_t, MisAlloc<unsigned char>>::type;
 IMG(rgb8_odd_img, "rgb8_oddbase"); IMG(rgb16_planar_odd_img, "rgb16_planar_oddbase"); IMG(bits565_odd_img, "bits_bgr565_oddbase");
 
+// a stateful allocator that does not propagate on move assignment: instances with different ids compare unequal, so move assignment
+// between them copies the pixels and leaves the source to be emptied by hand
+template <class T> struct StickyAlloc
+{
+    using value_type = T;
+    using propagate_on_container_move_assignment = std::false_type;
+    using propagate_on_container_copy_assignment = std::false_type;
+    using propagate_on_container_swap = std::false_type;
+    int id = 1;
+    StickyAlloc() = default;
+    explicit StickyAlloc(int i) : id(i) {}
+    template <class U> StickyAlloc(StickyAlloc<U> const& o) : id(o.id) {}
+    template <class U> struct rebind { using other = StickyAlloc<U>; };
+    T* allocate(std::size_t n) { T* p = static_cast<T*>(std::malloc(n * sizeof(T))); if (!p) throw std::bad_alloc(); return p; }
+    void deallocate(T* p, std::size_t) { std::free(p); }
+    bool operator==(StickyAlloc const& o) const { return id == o.id; }
+    bool operator!=(StickyAlloc const& o) const { return id != o.id; }
+};
+using rgb8_sticky_img = gil::image<gil::rgb8_pixel_t, false, StickyAlloc<unsigned char>>;
+using rgb16_planar_sticky_img = gil::image<gil::rgb16_pixel_t, true, StickyAlloc<unsigned char>>;
+IMG(rgb8_sticky_img, "rgb8_sticky"); IMG(rgb16_planar_sticky_img, "rgb16_planar_sticky");
+
 template <class Img> struct Checker
 {
     vh::Ctx& ctx;
@@ -172,7 +194,40 @@ template <class Img> void run_image_type(vh::Ctx& ctx)
     }
 }
 
+// moved-from images under unequal non-propagating allocators, then reused: dst = std::move(src) copies the pixels and empties src by
+// hand; every later recreate of src (same size, smaller, larger, re-aligned) must again yield pixels inside a block src obtained
+template <class Img> static void run_sticky_histories(vh::Ctx& ctx)
+{
+    using point_t = typename Img::point_t; using A = typename Img::allocator_type;
+    const long N = ctx.B("N", 4);
+    const char* tn = ImgName<Img>::name();
+    for (long w = 0; w <= N; ++w) for (long h = 0; h <= N; ++h)
+    {
+        if (!ctx.take()) continue;
+        for (long al : {0L, 8L})
+        {
+            std::string base = vh::S() << tn << "/" << w << "x" << h << "/a" << al;
+            ctx.cur = base;
+            Checker<Img> ck{ctx};
+            static const long next[][3] = {{-1, -1, 0}, {1, 1, 0}, {2, 3, 8}, {0, 0, 0}};      // -1: the size it had before the move
+            for (auto const& nx : next)
+            {
+                Img src(point_t(w, h), std::size_t(al), A(1)), dst(point_t(1, 1), std::size_t(0), A(2));
+                dst = std::move(src);
+                ck.all(dst, base + "/sticky-move-assign-target");
+                ck.all(src, base + "/sticky-moved-from");
+                const long w2 = nx[0] < 0 ? w : nx[0], h2 = nx[1] < 0 ? h : nx[1];
+                src.recreate(point_t(w2, h2), std::size_t(nx[2]));
+                ck.all(src, vh::S() << base << "/sticky-moved-from-then-recreate-" << w2 << "x" << h2 << "a" << nx[2]);
+                ++ctx.witness["moved_from_image_recreated_under_sticky_allocators"];
+            }
+        }
+        if (ctx.timed_out()) return;
+    }
+}
+
 #define IMG_GROUP(g, T) VH_GROUP(g) { vh::ubsan_counts() = false; run_image_type<T>(ctx); }
+#define STICKY_GROUP(g, T) VH_GROUP(g) { vh::ubsan_counts() = false; run_image_type<T>(ctx); run_sticky_histories<T>(ctx); }
 #ifndef VS_SET
 #define VS_SET 0
 #endif
@@ -190,6 +245,8 @@ IMG_GROUP(bits_gray1, bits1_img) IMG_GROUP(bits_gray2, bits2_img) IMG_GROUP(bits
 IMG_GROUP(bits_rgb121, bits121_img) IMG_GROUP(bits_rgb222, bits222_img) IMG_GROUP(bits_bgr565, bits565_img)
 #elif VS_SET == 7
 IMG_GROUP(rgb8_oddbase, rgb8_odd_img) IMG_GROUP(rgb16_planar_oddbase, rgb16_planar_odd_img) IMG_GROUP(bits_bgr565_oddbase, bits565_odd_img)
+#elif VS_SET == 8
+STICKY_GROUP(rgb8_sticky, rgb8_sticky_img) STICKY_GROUP(rgb16_planar_sticky, rgb16_planar_sticky_img)
 #elif VS_SET == 6
 IMG_GROUP(bits_rgb101010, bits101010_img) IMG_GROUP(bits_rgb121212, bits121212_img) IMG_GROUP(bits_rgba7777, bits7777_img)
 #endif
